@@ -184,7 +184,10 @@ impl SyncBlocker {
 
     #[inline]
     pub fn unpark(&self) {
-        self.blocker.unpark();
+        // publish the hand-off before the wake-up token: a waiter that ignores a
+        // cancel may consume the token with the cancel's wake-up, it must then
+        // already see that it was unparked or it would park again for ever
         self.unparked.store(true, Ordering::SeqCst);
+        self.blocker.unpark();
     }
 }
